@@ -23,6 +23,19 @@ chk('C02', 'TLC enumeration of all strings over a byte-class alphabet with the t
     'Trusted: MidiWire.Decode; accepted => bytes() reproduce the input; rejection must be ValueError (TypeError only for non-integer items).',
     'DESIGN.md 5/C02')
 
+chk('C04', 'TLA+ tokenizer state machine (Tokenizer/TokStream) explored by TLC over all byte-class strings up to a bound with history invariants; every string replayed through the real parser; long random real traces validated by TLC (TokenizerTrace)',
+    'TLC explores every string up to length 4 over 16 byte classes and 5 over 12 (thorough: 6 over 16, 17.9 M states), checking Total, AllYieldedValid, RealtimeExact, NoInvention on the specification; each string with its expected output is replayed through parse_all, Parser.feed/feed_byte/constructor and Tokenizer, also under a random class-preserving byte substitution. Random streams over all 256 byte values (3-10 kB each) are run through the real Parser with random chunking and validated per call by TLC.',
+    'Trusted: Tokenizer.tla Step as the behaviour of the parser; bytes within a class are interchangeable (exercised by substitution).',
+    'DESIGN.md 5/C04')
+chk('C05', 'TLC exploration of all chunkings x retrieval interleavings (TokChunks) with the ChunkIndependence invariant; every call history replayed on real Parser and ParserQueue; long real traces validated by TLC',
+    'For every stream of up to 2 (thorough 3, plus simulation with 4) items, TLC explores every way of feeding it in up to 3 chunks interleaved with up to 2 get_message/pending/iterate calls and checks out \\o queue = ParseAll(fed prefix) in every state; each complete history is replayed call by call on a real Parser (feed, feed_byte, bytes/list) and on ParserQueue, comparing every result.',
+    'Trusted: Tokenizer.tla; ParserQueue replayed single-threaded.',
+    'DESIGN.md 5/C05')
+chk('C06', 'TLC invariant Resync evaluated in every reachable tokenizer state plus ConcatParsesBack / RealtimeInsideSysex (TokResync); every prefix and every (control state x message) replayed on the real parser',
+    'Resync (any control state + Encode(M) yields exactly M) is checked by TLC in every state reached by strings up to length 4 (thorough 5) over 16 byte classes; each such prefix is replayed with 3 probe messages, and one witness prefix per distinct control state with a whole message domain (quick 343, thorough 17 370 messages). Concatenations of <= 3 messages and every placement of <= 5 (thorough 6) bytes from {data, real-time, undefined real-time} inside a sysex are enumerated by TLC and replayed; sysex payloads up to 64 bytes with real-time bytes at every offset are run on the real parser and trace-validated.',
+    'Trusted: Tokenizer.tla; "all prefixes" is represented by all reachable control states.',
+    'DESIGN.md 5/C06')
+
 
 def build(not_applicable):
     checks = []
